@@ -3,6 +3,8 @@ the corresponding check, pointed at a scratch copy carrying the edit, must exit 
 
     ./check selftest            # all mutants (a few minutes)
     ./check selftest --tier quick   # same; the tier only selects the tier of the checks that are run
+    VERIF_SELFTEST=seeded ./check selftest      # the sub-agents' seeded changes under seeded/ (whole quick check per change)
+    VERIF_SELFTEST=all ./check selftest
 """
 import os
 import shutil
@@ -72,15 +74,52 @@ def run_one(m, tier):
         shutil.rmtree(d, ignore_errors=True)
 
 
+def seeded_corpus():
+    """the independent sub-agents' changes kept under seeded/ (DESIGN §10.5): (name, property, patch, expected to be caught?)"""
+    import glob
+    import json
+    out = []
+    for meta in sorted(glob.glob(os.path.join(VERIF, 'seeded', '*', 'meta.json'))):
+        d = json.load(open(meta))
+        name = os.path.basename(os.path.dirname(meta))
+        out.append((name, d['property'], os.path.join(os.path.dirname(meta), 'patch.diff'), bool(d['check_run']['detected'])))
+    return out
+
+
+def run_seeded(entry, tier):
+    name, prop, patch, expected = entry
+    d = tempfile.mkdtemp(prefix='vf_seed_')
+    try:
+        shutil.copytree('/repo/opticomlib', os.path.join(d, 'opticomlib'))
+        r = subprocess.run(['git', 'apply', patch], cwd=d, capture_output=True, text=True)
+        if r.returncode != 0:
+            return 'stale', 'patch does not apply: ' + r.stderr.strip()[:120]
+        env = dict(os.environ, VERIF_REPO=d, VERIF_NO_EVIDENCE='1', VERIF_REPLAY_DIR=os.path.join(d, 'replays'))
+        t0 = time.time()
+        r = subprocess.run([os.path.join(VERIF, 'check'), prop, '--tier', tier], env=env, capture_output=True, text=True, timeout=6000)
+        hit = r.returncode == 1 and 'VIOLATION property=' + prop in r.stdout
+        if expected:
+            return ('caught' if hit else f'missed(exit {r.returncode})'), f'{time.time() - t0:.0f}s'
+        return ('caught(unexpected)' if hit else f'not-detected-as-recorded(exit {r.returncode})'), f'{time.time() - t0:.0f}s'
+    finally:
+        shutil.rmtree(d, ignore_errors=True)
+
+
 def main(tier='quick'):
     from concurrent.futures import ThreadPoolExecutor
     res = []
+    seeded = os.environ.get('VERIF_SELFTEST', 'mutants')          # mutants | seeded | all
     with ThreadPoolExecutor(max_workers=4) as ex:
-        futs = [(m, ex.submit(run_one, m, tier)) for m in MUTANTS]
-        for m, f in futs:
+        futs = []
+        if seeded in ('mutants', 'all'):
+            futs += [((m[0], m[1], m[5]), True, ex.submit(run_one, m, tier)) for m in MUTANTS]
+        if seeded in ('seeded', 'all'):
+            futs += [((e[1], 'seeded', e[0]), e[3], ex.submit(run_seeded, e, tier)) for e in seeded_corpus()]
+        for lab, expected, f in futs:
             st, info = f.result()
-            res.append((m, st, info))
-            print(f'{st:14s} {m[0]} {m[1]:11s} {m[5]} [{info}]')
-    caught = sum(1 for _, st, _ in res if st == 'caught')
-    print(f'selftest: {caught}/{len(res)} mutants caught')
-    return 0 if caught == len(res) else 1
+            res.append((lab, expected, st, info))
+            print(f'{st:14s} {lab[0]} {lab[1]:11s} {lab[2]} [{info}]', flush=True)
+    want = [r for r in res if r[1]]
+    caught = sum(1 for r in want if r[2] == 'caught')
+    print(f'selftest: {caught}/{len(want)} changes caught' + (f'; {len(res) - len(want)} recorded as not detectable' if len(res) != len(want) else ''))
+    return 0 if caught == len(want) else 1
